@@ -167,6 +167,7 @@ func VerifC06_BucketChildren() {
 
 func VerifC06_PacketOutChildren() {
 	p := NewPacketOut()
+	p.BufferId = vr.U32("buffer") // data may accompany a buffered packet too
 	kids := c06actionKids(func(a Action) { p.AddAction(a) }, 1)
 	if vr.Bool("hasdata") {
 		pl := vr.Bytes("payload", vr.IntRange("paylen", 0, 8))
@@ -325,6 +326,7 @@ func VerifC06_GenericBucket() {
 
 func VerifC06_GenericPacketOut() {
 	p := NewPacketOut()
+	p.BufferId = vr.U32("buffer") // data may accompany a buffered packet too
 	kids := c06genKids(func(a Action) { p.AddAction(a) })
 	b := c06sized(p)
 	c06children(b, 24, kids, false)
@@ -400,6 +402,7 @@ func c06lateChild() (a Action, grow func()) {
 
 func VerifC06_LateGrowthPacketOut() {
 	p := NewPacketOut()
+	p.BufferId = vr.U32("buffer") // data may accompany a buffered packet too
 	a, grow := c06lateChild()
 	p.AddAction(a)
 	grow()
